@@ -1,0 +1,22 @@
+//go:build verif
+
+// Contracts for package nfpm, checked by /verif/gvc (contract-based deductive
+// verification).  This file is comment-only: with the build tag off it does
+// not exist for the compiler, with it on it adds nothing but a package clause.
+package nfpm
+
+//@ import "github.com/goreleaser/nfpm/v2/files"
+//
+//@ spec func planOK(cs files.Contents) bool {
+//@     return forall(0, len(cs), func(i int) bool {
+//@         return cs[i] != nil && fresh(cs[i]) && cs[i].FileInfo != nil && fresh(cs[i].FileInfo)
+//@     })
+//@ }
+//
+//@ func PrepareForPackager(info *Info, packager string) (err error)
+//@   requires info != nil
+//@   ensures [C11 C12 C01] plan-fresh: implies(err == nil, planOK(info.Contents))
+//@   ensures [C06] loud: implies(err == nil, flag("failed") == old(flag("failed")))
+//@   ensures [C07] no-clock: implies(!old(info.MTime.IsZero()), flag("clockRead") == old(flag("clockRead")))
+//@   ensures [C07] no-env: flag("envRead") == old(flag("envRead"))
+//@   modifies [C11 C12] &info.Contents, flag("failed"), flag("clockRead")
